@@ -32,7 +32,7 @@ CLAIMED.update({
             "A PathTpc is grown over generated networks by a seeded history of extend calls (every way of partitioning the route, empty extensions, reload of the half-built path in yaml/bincode/json between two extensions); after every extension the enforced profile is compared, at the midpoint of every interval between breakpoints and at every breakpoint from the right, with the pointwise minimum of the restrictions read from the network (tail-end extension by train length, gating by train parameters, per-train-type sets re-implemented independently); a 0.04 % share of the runs judges the path of a moving train simulation the same way (see C13). Operation history only: there is no fault in this property beyond the reload (DESIGN 5).",
             "Trusted: the pointwise-minimum reference (~60 lines); exact comparison (the code only copies and compares speeds)."),
     "C13": ("trk", "exploration",
-            "Same runs as C02 with equality instead of <=, plus canonical form (sorted, no equal-valued neighbours, first point at the path start); generator dense in restrictions nested inside another's extent, ending between two existing points, zero-length and duplicate-bound restrictions. 0.04 % of the runs (C02 likewise) are speed-limited train simulations of world trn whose own path - extended while the train moves, train parameters derived by TrainConfig from a car list that may name car types with zero cars, restriction sets gated at the train's own axle count - is judged by the same reference after every extend_path. Operation history only (DESIGN 5).",
+            "Same runs as C02 with equality instead of <=, plus canonical form (sorted, no equal-valued neighbours, first point at the path start); generator dense in restrictions nested inside another's extent, ending between two existing points, zero-length and duplicate-bound restrictions. 0.04 % of the runs (C02 likewise) are speed-limited train simulations of world trn whose own path - extended while the train moves, train parameters derived by TrainConfig from a car list that may name car types with zero cars, restriction sets gated at the train's own axle count - is judged by the same reference after every extend_path; 12 % of the cases drop the train's type from one route link's per-type map of restriction sets: the extension must be refused, not given another type's restrictions. Operation history only (DESIGN 5).",
             "Trusted: as C02; a restriction covers [start, end)."),
     "C06": ("trk", "exploration",
             "Differential, bit-exact: every seeded partition of a route into extend calls (with empty extensions and yaml/bincode reloads in between) yields a PathTpc equal to the one-call build; reference: link points at cumulative lengths, elevation at every breakpoint and 3 interior positions per segment equal to the walk over the route's own elevation points, grades = slopes, cumulative curve resistance = documented three-branch formula, catenary limits shifted, count bookkeeping; non-contiguous / unreal extensions must be refused; panics are violations. Operation history only (DESIGN 5).",
@@ -56,7 +56,7 @@ CLAIMED.update({
             "Same runs incl. links much shorter than one step of travel, user-supplied initial front positions beyond the train length (20 % of the cases), irregular set-speed time stamps, stops at the end of authority and restarts, crash/restore; kinematic reference per executed step (time, front advance = dt x mean speed, rear = front - length, total distance, front segment / in-segment offset).",
             "Trusted: kinematic reference (~50 lines); offset tolerance 1e-5 m."),
     "C14": ("trn", "exploration",
-            "Set-speed runs with generated non-negative traces with irregular time stamps (dt jumps, plateaus, stops, accelerations and brakings beyond what the consist can deliver so both clips bind), driven by the shipped walk() and by simulator steps with crash/restore and interval changes; per step time/speed = trace, pwr_accel, pwr_res, wheel power = clip(inertia + resistance) with the upper clip computed from published consist state only and the lower clip from the sum of the units' drivetrain ratings (not from the consist's derived state field), energies accumulate that power x the trace's own dt; one train in ten has its consist completed after construction through Consist::set_loco_vec, one in eight lists a car type with zero cars.",
+            "Set-speed runs with generated non-negative traces with irregular time stamps (dt jumps, plateaus, stops, accelerations and brakings beyond what the consist can deliver so both clips bind), driven by the shipped walk() and by simulator steps with crash/restore and interval changes; per step time/speed = trace, pwr_accel, pwr_res, wheel power = clip(inertia + resistance) with the upper clip computed from published consist state only and the lower clip from the sum of the units' drivetrain ratings (not from the consist's derived state field), energies accumulate that power x the trace's own dt; 8 % of the traces start at a time datum of their own (the run must follow the trace's stamps); one train in ten has its consist completed after construction through Consist::set_loco_vec, one in eight lists a car type with zero cars.",
             "Trusted: power reference (~50 lines), 1e-9 relative; upper clip includes the published rate limit."),
 })
 
